@@ -20,7 +20,7 @@ var rawFuncs = map[string]struct {
 	"runecount": {"str_runecount", SInt}, "strlt": {"str_lt", SBool},
 	"typeof": {"typeof", SInt}, "kind": {"kind", SInt}, "kindof": {"kindof", SInt},
 	"pl_int": {"pl_int", SInt}, "pl_bool": {"pl_bool", SBool}, "pl_str": {"pl_str", SStr}, "pl_flt": {"pl_flt", SFlt},
-	"pl_len": {"pl_len", SInt}, "pl_elem": {"pl_elem", SVal}, "pl_ptr": {"pl_ptr", SInt}, "pl_deref": {"pl_deref", SVal}, "pl_mhas": {"pl_mhas", SBool}, "pl_mget": {"pl_mget", SVal}, "tassignable": {"tassignable", SBool}, "tnumin": {"tnumin", SInt}, "tvariadic": {"tvariadic", SBool}, "tin": {"tin", SInt},
+	"pl_len": {"pl_len", SInt}, "pl_elem": {"pl_elem", SVal}, "pl_ptr": {"pl_ptr", SInt}, "pl_deref": {"pl_deref", SVal}, "pl_mhas": {"pl_mhas", SBool}, "pl_mget": {"pl_mget", SVal}, "tassignable": {"tassignable", SBool}, "tnumin": {"tnumin", SInt}, "sprint1": {"sprint1", SStr}, "tvariadic": {"tvariadic", SBool}, "tin": {"tin", SInt},
 	"tcomparable": {"tcomparable", SBool}, "telem": {"telem", SInt}, "tkey": {"tkey", SInt},
 	"i2f": {"i2f", SFlt}, "f2i": {"f2i", SInt}, "fadd": {"f_add", SFlt}, "fsub": {"f_sub", SFlt}, "fmul": {"f_mul", SFlt},
 	"fdiv": {"f_div", SFlt}, "flt": {"f_lt", SBool}, "feq": {"f_eq", SBool}, "isnan": {"f_isnan", SBool},
@@ -325,6 +325,23 @@ func (c *SpecCtx) call(e *ast.CallExpr) TT {
 				}
 			}
 			c.failf("visited(): no map iteration in scope")
+		case "nvisited":
+			// nvisited(): number of keys produced so far by the (single) map iteration in scope
+			for name, g := range c.st.ghosts {
+				if strings.HasPrefix(name, "iter$") && (c.iterKey == "" || name == c.iterKey) {
+					if ks, vs, ok := arrayParts(g.Sort); ok && vs == SBool {
+						fn := smtName("map_card$", ks)
+						if !c.ex.d.has("fun:" + fn) {
+							as := arraySort(ks, SBool)
+							c.ex.d.declFun(fn, []string{as}, SInt)
+							c.ex.d.axiom("card:"+fn, fmt.Sprintf("(assert (forall ((h %s)) (! (>= (%s h) 0) :pattern ((%s h)))))\n(assert (= (%s ((as const %s) false)) 0))\n(assert (forall ((h %s) (k %s)) (! (= (%s (store h k true)) (+ (%s h) (ite (select h k) 0 1))) :pattern ((%s (store h k true))))))",
+								as, fn, fn, fn, as, as, ks, fn, fn, fn))
+						}
+						return TT{T: app(SInt, fn, g), Ty: types.Typ[types.Int]}
+					}
+				}
+			}
+			c.failf("nvisited(): no map iteration in scope")
 		case "result_of":
 			// not supported
 		}
